@@ -13,7 +13,7 @@ sys.path.insert(0, os.path.join(os.path.dirname(os.path.abspath(__file__)), ".."
 import gen_session as G  # noqa: E402
 import impl_session as S  # noqa: E402
 
-LEAN_MODULES = ["KmipModel.Props.C12", "KmipModel.Props.C12Decode", "KmipModel.Props.Server", "KmipModel.Props.ServerBytes", "KmipModel.Props.ServerWF"]
+LEAN_MODULES = ["KmipModel.Props.C12", "KmipModel.Props.C12Decode", "KmipModel.Props.Server", "KmipModel.Props.ServerBytes", "KmipModel.Props.ServerWF", "KmipModel.Props.ServerRun"]
 RULE = ("byte streams = sequences of frames drawn from: valid requests for the 21 dispatched operations x KMIP "
         "1.0-2.0 (built with kmip.core.messages and encoded with .write, incl. frames larger than two receive "
         "buffers, and - implementation monitor only - valid requests of 1-2 MiB followed by an ordinary request), 13 grammar-aware mutation classes of them (truncate, inflate/deflate a length field, flip a type "
@@ -573,6 +573,9 @@ def run(ctx):
     ctx.coverage["evaluations"] = ctx.coverage.get("evaluations", 0) + ncut
     nhuge = huge_pass(ctx, random.Random(ctx.seed * 11 + 5), 3 if ctx.tier == "quick" else 10)
     ctx.coverage["evaluations"] += 2 * nhuge
+    # M17: the COMPOSED model (session x decoder x engine x encoder) against KmipSession + KmipEngine, byte for byte
+    import e2e_hook
+    e2e_hook.run(ctx, ["c12", "c08"])
     if divs or rdiv:
         # a divergence alone is not a violation: look for a failing input around it first
         n0 = len(ctx.violations)
@@ -694,6 +697,9 @@ def search(ctx, broken, budget=None):
 
 
 def replay(ctx, rep):
+    if (rep.get("replay") or {}).get("kind") == "server-e2e":
+        import e2e_hook
+        return e2e_hook.replay(ctx, rep)
     if (rep.get("replay") or {}).get("kind") == "huge":
         r = rep["replay"]
         rig = S.Rig()
